@@ -24,7 +24,7 @@ PROOF_KINDS = (
     'possible arithmetic underflow/overflow', 'invariant not satisfied', 'possible division by zero',
     'loop invariant not preserved', 'loop invariant not satisfied', 'decreases not satisfied',
     'possible bit shift underflow/overflow', 'recommendation not met', 'index out of bounds',
-    'cannot show', 'termination', 'unreachable', 'might', 'possible',
+    'cannot show', 'termination', 'unreachable', 'might', 'possible', 'unable to prove',
 )
 
 
@@ -113,7 +113,7 @@ def _emit_fn(gen, root, fn, canary_false=False):
     end = len(gen.lines)
     gen.fns[key] = dict(file=fn.file, scope=fn.scope, name=fn.name, repo_line=d['line'], gen_start=start, gen_end=end,
                         sha_repo=X.sha(d['sig'] + d['body']), sha_emitted=X.sha('\n'.join(gen.lines[start - 1:end])),
-                        rules=fired, props=fn.props, canary=(fn.canary and canary_false), external_body=fn.external_body, gtag_props=fn.gtag_props,
+                        rules=fired, props=fn.props, canary=(fn.canary and canary_false), external_body=fn.external_body, gtag_props=fn.gtag_props, extra_props=fn.extra_props,
                         n_requires=len(fn.requires), n_ensures=len(fn.ensures))
 
 
@@ -490,6 +490,10 @@ def _describe_failure(gen, unit, d):
                 props.append(p)
     if not props and fn_key in gen.fns:
         props = list(gen.fns[fn_key]['props'])
+    if fn_key in gen.fns:
+        for p in gen.fns[fn_key].get('extra_props', []):
+            if p not in props:
+                props.append(p)
     kind = d['message'].split(':')[0]
     if tags:
         oblig = '+'.join(tags)
